@@ -143,6 +143,7 @@ struct Runner {
     fails: Vec<Value>,
     nfails: usize,
     per_what: std::collections::BTreeMap<String, usize>,
+    round_kept: std::collections::BTreeMap<String, usize>,
     /// encoder results whose minutes / seconds group reads 60 (same angle, unusual spelling)
     group60: usize,
     group60_samples: Vec<Value>,
@@ -168,14 +169,14 @@ impl Runner {
         );
         // ... plus a few on whole arc-minutes, which make the shortest reproductions
         let round = v["A"]["r"].as_i64().map(|r| r % 60_000 == 0).unwrap_or(false);
-        let nr = *self.per_what.get(&(key.clone() + "|round")).unwrap_or(&0);
+        let nr = *self.round_kept.get(&key).unwrap_or(&0);
         let n = self.per_what.entry(key.clone()).or_insert(0);
         *n += 1;
         if *n <= 25 {
             self.fails.push(v);
         } else if round && nr < 5 {
             self.fails.push(v);
-            *self.per_what.entry(key + "|round").or_insert(0) += 1;
+            *self.round_kept.entry(key).or_insert(0) += 1;
         }
     }
     fn note_group60(&mut self, api: &str, angle: &str, code: f64) {
@@ -944,6 +945,7 @@ fn replay(input: &str, output: &str) -> i32 {
         nontrivial: 0,
         per_kind: Default::default(),
         per_what: Default::default(),
+        round_kept: Default::default(),
         group60: 0,
         group60_samples: vec![],
         slots: Value::Null,
